@@ -18,6 +18,7 @@ def alphabet(version: str, thorough: bool) -> list:
     evs = [
         "1;255;0;0;17;2.0",
         "2;255;0;0;-1;",
+        "4;255;0;0;0;x",
         f"3;255;0;0;{BIGT};é",
         "1;255;3;0;0;0",
         "1;255;3;0;0;100",
@@ -29,6 +30,7 @@ def alphabet(version: str, thorough: bool) -> list:
         "1;255;3;0;12;1.0",
         '1;3;0;0;6;désc "q"',
         "1;0;0;0;-1;",
+        "4;0;0;0;0;",
         "2;254;0;0;3;x",
         "1;3;1;0;2;a;b",
         '1;3;1;0;2;"q"',
@@ -37,7 +39,7 @@ def alphabet(version: str, thorough: bool) -> list:
         "255;255;3;0;3;",
     ]
     if R.is2x(version):
-        evs += ["1;255;3;0;22;0", "1;255;3;0;22;4294967295"]
+        evs += ["1;255;3;0;22;0", "1;255;3;0;22;4294967295", "1;255;3;0;22;-7"]
     if version == "2.2":
         evs += ["1;255;3;0;32;500"]
     if thorough:
@@ -134,16 +136,17 @@ def make(cfg):
 
 
 def grid(quick: bool) -> list:
-    types = [17, -1, int(BIGT)]
+    types = [17, 0, -1, int(BIGT)]
     versions = ["2.0", "", "é"]
     names = ["", "é", "a;b"]
     batteries = [0, 100, 55]
-    hbs = [0, 4294967295]
+    hbs = [0, 4294967295, -1]
     sleeps = [False, True]
     childsets = [
         {},
         {3: Child(3, 6, description='d "q"', values={2: "a;b", -1: "é"})},
         {0: Child(0, -1), 254: Child(254, 3, description="é", values={47: ""})},
+        {0: Child(0, 0, values={0: "0"})},
     ]
     out = []
     for t, v, nm, b, hb, sl, ci in itertools.product(types, versions, names, batteries, hbs, sleeps, range(len(childsets))):
